@@ -16,7 +16,12 @@ SM = "sparse::SparseMatrix::"
 
 def trace_run(F, mod, rx):
     b = F.body(RUN % mod)
-    t = Tracer(F, rx, mode="int")
+
+    def free_helper(p):
+        # private free functions of the cli modules (shared printing / file-reading helpers) are expanded; methods of Args stay opaque
+        hb = F.private_helper(p, "cli::")
+        return hb if hb is not None and hb.d.get("def_kind") == "Fn" else None
+    t = Tracer(F, rx, mode="int", inline=free_helper)
     env = {}
     t.bind(b.params[0], var("self"), env)
     try:
@@ -34,57 +39,77 @@ def printed(e):
 
 
 def cli_dvbs2_table(ck, F, rule):
-    # ---- L1 ---------------------------------------------------------------------------------------
+    """The identifier -> Code mapping of `dvbs2 --rate R [--short]`, read by evaluating Args::code on every point of its finite
+    domain (each rate string occurring in the function x {normal, short}, plus a string that occurs nowhere): independent of how
+    the table is written (one match on the pair, a match on the rate returning both codes, a lookup helper ..)."""
     cb = F.body("cli::dvbs2::Args::code")
-    m = [x for x in find_matches(cb.value) if len(x["arms"]) > 5]
-    if len(m) != 1:
-        raise AnalysisError("cli::dvbs2::Args::code: expected one table-like match")
-    ev = SymEval(F)
-    env = {}
-    ev.bind(cb.params[0], var("self"), env)
-    scr = ev.eval(m[0]["e"], env)
-    ck.inst(rule, "scrutinee", scr == ("tuple", [var("self.rate"), var("self.short")]), cb.span, "table is indexed by (rate string, short flag): %r" % (scr,))
+    rates = sorted({n["v"] for n in walk(cb.value) if n.get("k") == "lit" and n.get("lt") == "str" and re.fullmatch(r"\d+/\d+", str(n.get("v")))} |
+                   {str(x.get("v")) for x in walk(cb.value) if x.get("k") == "plit" and re.fullmatch(r"\d+/\d+", str(x.get("v")))})
+    helpers = lambda p: F.private_helper(p, "cli::dvbs2::", keep=r"cli::dvbs2::Args::code_error")
     variants = [v["name"] for v in F.adt("codes::dvbs2::Code")["variants"]]
     seen = {}
-    wild_ok = False
-    for key, guard, body, arm in match_rows(m[0]):
-        if is_catch_all(key):
-            wild_ok = diverges_with_err(body) or last_seg(callee(strip(body)) or "") == "Err"
-            continue
-        rate, short = key
-        v = value_path(body)
-        a, b_ = rate.split("/")
-        want = "R%s_%s%s" % (a, b_, "short" if short else "")
-        seen.setdefault(v, []).append(key)
-        ck.inst(rule, "row:%s%s" % (rate, ":short" if short else ""), v == want and guard is None, arm["sp"],
-                "(%r, short=%s) -> %s ; naming law: %s" % (rate, short, v, want), {"key": [rate, short], "code": v})
-    ck.floor(rule, "table rows", sum(len(v) for v in seen.values()), 21)
-    ck.inst(rule, "coverage", sorted(seen) == sorted(variants) and all(len(v) == 1 for v in seen.values()), cb.span,
-            "every Code variant is reachable from exactly one (rate, short) pair: missing %s, duplicated %s" % (
-                sorted(set(variants) - set(seen)), sorted(k for k, v in seen.items() if len(v) > 1)))
-    ck.inst(rule, "reject-others", wild_ok, cb.span, "any other (rate, short) combination yields Err")
 
+    def run_code(rate, short):
+        ev = SymEval(F, inline=helpers)
+        env = {}
+        ev.bind(cb.params[0], ("struct", "Args", {"rate": ("str", rate), "short": ("bool", short), "girth": var("self.girth")}), env)
+        try:
+            return ev.eval_fn(cb, env)
+        except Unsupported as e:
+            raise AnalysisError("cli::dvbs2::Args::code: cannot evaluate for (%r, short=%s): %s" % (rate, short, e))
+    for rate in rates:
+        for short in (False, True):
+            v = run_code(rate, short)
+            a_, b_ = rate.split("/")
+            want = "R%s_%s%s" % (a_, b_, "short" if short else "")
+            got = v[2][0][1] if isinstance(v, tuple) and v[0] == "ctor" and v[1] == "Ok" and isinstance(v[2][0], tuple) and v[2][0][0] == "variant" else None
+            is_err = isinstance(v, tuple) and v[0] == "ctor" and v[1] == "Err"
+            if want in variants:
+                seen.setdefault(got, []).append((rate, short))
+                ck.inst(rule, "row:%s%s" % (rate, ":short" if short else ""), got == want, cb.span,
+                        "(%r, short=%s) -> %s ; naming law: %s" % (rate, short, got if got else repr(v)[:80], want), {"key": [rate, short], "code": got})
+            else:
+                ck.inst(rule, "row:%s%s" % (rate, ":short" if short else ""), is_err, cb.span,
+                        "(%r, short=%s) has no code in the standard: %s" % (rate, short, "rejected" if is_err else "accepted as %s" % (got or repr(v)[:60])))
+    ck.floor(rule, "table rows", sum(len(v) for k, v in seen.items() if k), 21)
+    ck.inst(rule, "coverage", sorted(k for k in seen if k) == sorted(variants) and all(len(v) == 1 for v in seen.values()), cb.span,
+            "every Code variant is reachable from exactly one (rate, short) pair: missing %s, duplicated %s" % (
+                sorted(set(variants) - set(seen)), sorted(str(k) for k, v in seen.items() if len(v) > 1)))
+    others = [run_code("no-such-rate", sh) for sh in (False, True)]
+    ck.inst(rule, "reject-others", all(isinstance(v, tuple) and v[0] == "ctor" and v[1] == "Err" for v in others), cb.span,
+            "any other rate string yields Err")
 
 
 def cli_ccsds_tables(ck, F, rule):
-    # ---- L2 ---------------------------------------------------------------------------------------
+    """--rate / --block-size -> AR4JACode::new(rate, size), read by evaluating Args::code on the finite domain of identifiers that
+    occur in it (plus values that occur nowhere), whatever the table looks like (two matches, lookup tables, ..)."""
     cc = F.body("cli::ccsds::Args::code")
-    ms = find_matches(cc.value)
-    tabs = {}
-    for mm in ms:
-        rows = match_rows(mm)
-        kind = "rate" if any(isinstance(k, str) and "/" in k for k, *_ in rows) else "size"
-        for key, guard, body, arm in rows:
-            if is_catch_all(key):
-                tabs.setdefault(kind + ":wild", diverges_with_err(body))
-                continue
-            v = value_path(body)
-            want = ("R" + key.replace("/", "_")) if kind == "rate" else "K%d" % key
-            ck.inst(rule, "%s:%s" % (kind, key), v == want, arm["sp"], "%r -> %s (naming law %s)" % (key, v, want))
-            tabs.setdefault(kind, []).append(key)
-    ck.inst(rule, "tables-complete", sorted(tabs.get("rate", [])) == ["1/2", "2/3", "4/5"] and sorted(tabs.get("size", [])) == [1024, 4096, 16384]
-            and tabs.get("rate:wild") and tabs.get("size:wild"), cc.span, "rates %s, sizes %s, other values rejected with Err" % (tabs.get("rate"), tabs.get("size")))
+    strs = sorted({str(n["v"]) for n in walk(cc.value) if n.get("k") in ("lit", "plit") and re.fullmatch(r"\d+/\d+", str(n.get("v")))})
+    ints = sorted({int(n["v"]) for n in walk(cc.value) if n.get("k") in ("lit", "plit") and n.get("lt", "int") == "int" and str(n.get("v")).isdigit() and int(n["v"]) >= 64})
+    helpers = lambda p: F.private_helper(p, "cli::ccsds::")
 
+    def run_code(rate, size):
+        ev = SymEval(F, inline=helpers)
+        env = {}
+        ev.bind(cc.params[0], ("struct", "Args", {"rate": ("str", rate), "block_size": num(size), "girth": var("self.girth")}), env)
+        try:
+            return ev.eval_fn(cc, env)
+        except Unsupported as e:
+            raise AnalysisError("cli::ccsds::Args::code: cannot evaluate for (%r, %r): %s" % (rate, size, e))
+
+    def is_err(v):
+        return isinstance(v, tuple) and len(v) == 3 and v[0] == "ctor" and v[1] == "Err"
+    n_ok = 0
+    for r in strs:
+        for k in ints:
+            v = run_code(r, k)
+            want = ("ctor", "Ok", [app("codes::ccsds::AR4JACode::new", ("variant", "R" + r.replace("/", "_")), ("variant", "K%d" % k))])
+            ok = v == want
+            n_ok += ok
+            ck.inst(rule, "pair:%s,%d" % (r, k), ok, cc.span, "(%r, %d) -> %s (naming law R%s, K%d)" % (r, k, repr(v)[:90], r.replace("/", "_"), k))
+    rej = [run_code("no-such-rate", ints[0] if ints else 1024), run_code(strs[0] if strs else "1/2", 1000), run_code("no-such-rate", 1000)]
+    ck.inst(rule, "tables-complete", sorted(strs) == ["1/2", "2/3", "4/5"] and sorted(ints) == [1024, 4096, 16384] and all(is_err(v) for v in rej), cc.span,
+            "rates %s, sizes %s, other values rejected with Err: %s" % (strs, ints, all(is_err(v) for v in rej)))
 
 
 def run(ck, F, tier):
@@ -293,11 +318,8 @@ def l5_l6(ck, F, tier):
     # every per-code column (a field of CodeStatistics) must come from the one selected statistics object, so that the error
     # counts and the rates printed on one line satisfy ber = bit_errors/bits and fer = frame_errors/frames of the same object
     if fm:
-        selected = None
-        bodyb = strip(fb.value)
-        for st in bodyb.get("stmts", []) if bodyb.get("k") == "block" else []:
-            if st.get("k") == "let" and st.get("init") is not None and strip(st["init"]).get("k") == "match" and st["pat"].get("k") == "bind":
-                selected = st["pat"]["name"]
+        # the binding the per-code columns are read from
+        roots = set()
         bad = []
         nper = 0
         for a in fm[1]:
@@ -305,19 +327,38 @@ def l5_l6(ck, F, tier):
             if a.get("k") == "field" and "CodeStatistics" in (strip(a["e"]).get("ty") or ""):
                 nper += 1
                 ap = access_path(a)
-                if not (ap and len(ap) == 2 and ap[0] == selected):
+                if ap and len(ap) == 2:
+                    roots.add(ap[0])
+                else:
                     bad.append(".".join(x.split("#")[0] for x in ap) if ap else "?")
+        selected = list(roots)[0] if len(roots) == 1 else None
         ck.inst("L6", "per-code-columns-from-selected-object", selected is not None and nper == 5 and not bad, fb.span,
-                "%d per-code columns, all read from the selected statistics binding%s" % (nper, "" if not bad else "; read elsewhere: %s" % bad))
-    sel = [mm for mm in find_matches(fb.value) if len(mm["arms"]) == 3]
-    oks = False
-    if len(sel) == 1:
-        rows = {k: strip(bd) for k, g, bd, arm in match_rows(sel[0])}
-        def pth(n):
-            ap = access_path(n)
-            return ap[-1].split("#")[0] if ap else None
-        oks = pth(rows.get((True, "_"))) == "ldpc" and pth(rows.get((False, ("Some", "_")))) == "bch" and pth(rows.get((False, "None"))) == "ldpc"
-    ck.inst("L6", "statistics-selection", oks, fb.span, "(force_ldpc, bch) -> ldpc if forced, bch when present, else ldpc")
+                "%d per-code columns, all read from one statistics binding%s" % (nper, "" if not bad and len(roots) == 1 else "; read from %s %s" % (sorted(r.split("#")[0] for r in roots), bad)))
+        # which object that binding denotes, by cases on (force_ldpc, bch present): ldpc if forced, the outer-code statistics when present, else ldpc
+        init = None
+        bodyb = strip(fb.value)
+        for st in bodyb.get("stmts", []) if bodyb.get("k") == "block" else []:
+            if st.get("k") == "let" and st.get("init") is not None and st["pat"].get("k") == "bind" and st["pat"]["name"] == selected:
+                init = st["init"]
+        oks = False
+        got_sel = {}
+        if init is not None:
+            oks = True
+            for force in (True, False):
+                for bname, bval in (("Some", ("ctor", "Some", [var("BCH")])), ("None", ("variant", "None"))):
+                    evs = SymEval(F)
+                    envs = {}
+                    evs.bind(fb.params[0], ("struct", "Statistics", {"bch": bval, "ldpc": var("LDPC")}), envs)
+                    evs.bind(fb.params[1], ("bool", force), envs)
+                    try:
+                        v = evs.eval(init, envs)
+                    except Unsupported as e:
+                        v = "unreadable: %s" % e
+                    got_sel[(force, bname)] = v
+                    want = var("BCH") if (not force and bname == "Some") else var("LDPC")
+                    oks = oks and v == want
+        ck.inst("L6", "statistics-selection", oks, fb.span, "(force_ldpc, bch) -> ldpc if forced, bch when present, else ldpc: %s" % (
+            "as required" if oks else {k: repr(v)[:40] for k, v in got_sel.items()}))
     wb = F.body("cli::ber::Progress::work")
     # private helpers of Progress (e.g. an extracted "write the line to the output files") are expanded
     tw = Tracer(F, r"std::io::Write::write_fmt|cli::ber::Progress::format_progress", mode="int",
